@@ -9,25 +9,25 @@ from ref import codec as C
 PROPERTY = 'C13'
 LEVEL = 'exploration'
 RULE = ('cases = claim histories of one CA (bypassed / immediate range / veto range; arbitrary-address-capable or not) driven by a scripted contender '
-        '(no contender, lower NAME claiming during the veto window, lower NAME claiming after the CA is operational, higher NAME claiming) on either '
+        '(no contender, lower NAME claiming during the veto window, lower NAME claiming after the CA is operational, higher NAME claiming, two successive lower-NAME claims for the preferred and the re-claimed address; preferred addresses incl. the range boundaries 0, 127, 128, 247, 248, 253) on either '
         'data link layer; at instants before start, during the claim delay, during WAIT_VETO, operational, 1 ms after a loss, after the re-claim and '
         'in CANNOT_CLAIM every send entry point is called: send_pgn <= 8 bytes, send_pgn > 8 bytes, send_message, send_request(ordinary PGN), '
         'send_request(address-claim PGN), Dm22 request, Dm11.request_clear_all, Dm14Query.read (50 ms time-out), and a Dm1 send cycle at the end; '
         'oracle = calls made while the CA is not operational raise and emit nothing except a request-for-address-claim from SA 254; every frame '
         'the node emits that is not an address claim / cannot-claim / that request carries the address the CA holds at the instant of emission '
-        '(state sampled at every frame); non-trivial = >= 1 probe in an operational and >= 1 in a non-operational state; distinct = history + layer')
+        '(state sampled at every frame) never the preferred address in 128..247 earlier than 249 ms after its initial claim, and never an address a lower NAME has claimed on the bus more than 5 ms earlier; non-trivial = >= 1 probe in an operational and >= 1 in a non-operational state; distinct = history + layer')
 ASSUMPTIONS = ['"holds" is read through the public state / device_address properties at the instant each frame is emitted and cross-checked against the '
                'CA\'s own last claim frame on the bus', 'a Dm1 cycle that raises inside the job thread may end that thread; liveness is not part of this property']
-MIN_OBS = {'calls_nonoperational': {'quick': 3000, 'thorough': 100000}, 'calls_operational': {'quick': 3000, 'thorough': 100000},
-           'frames_attributed': {'quick': 5000, 'thorough': 150000}, 'null_address_requests': {'quick': 300, 'thorough': 10000}}
+MIN_OBS = {'calls_nonoperational': {'quick': 10000, 'thorough': 150000}, 'calls_operational': {'quick': 10000, 'thorough': 150000},
+           'frames_attributed': {'quick': 15000, 'thorough': 200000}, 'null_address_requests': {'quick': 1000, 'thorough': 15000}}
 
-HISTORIES = ['bypass', 'imm_ok', 'veto_ok', 'veto_lose', 'lose_after', 'win']
+HISTORIES = ['bypass', 'imm_ok', 'veto_ok', 'veto_lose', 'lose_after', 'win', 'lose_twice']
 
 
 def cases(tier, seed):
     rng = random.Random(13000 + seed)
     out = []
-    n = 20 if tier == 'quick' else 600
+    n = 80 if tier == 'quick' else 1200
     for layer in ('j1939-21', 'j1939-22'):
         for h in HISTORIES:
             for aac in (0, 1):
@@ -49,12 +49,21 @@ def run_case(case):
     A = W.stack('A')
     X = ScriptNode(W.bus, 'X')
     ST = j.ControllerApplication.State
-    pref = rng.randrange(130, 240) if hist in ('veto_ok', 'veto_lose') else rng.randrange(2, 120)
+    pref = rng.randrange(130, 240) if hist in ('veto_ok', 'veto_lose', 'lose_twice') else rng.randrange(2, 120)
     if hist in ('lose_after', 'win', 'bypass') and rng.random() < 0.5:
         pref = rng.randrange(130, 240)
+    # boundaries of the veto range (128..247) and of the immediate ranges, where no loss can push the CA out of room
+    if hist in ('veto_ok', 'win') or (hist in ('veto_lose',) and not case['aac']):
+        if rng.random() < 0.5:
+            pref = rng.choice([128, 247, 247, 129, 246])
+    elif hist in ('imm_ok', 'bypass') or (hist == 'lose_after' and not case['aac']):
+        if rng.random() < 0.5:
+            pref = rng.choice([0, 1, 127, 248, 253])
     nv = C.name_value(identity_number=500, function=30, arbitrary_address_capable=case['aac'])
     ca = W.ca(A, pref, name_value=nv, bypass=(hist == 'bypass'))
     LOW = C.name_bytes(C.name_value(identity_number=3))
+    LOW2 = C.name_bytes(C.name_value(identity_number=4))
+    lost = {}          # address -> instant a lower NAME claimed it on the bus (the CA must not send from it afterwards)
     HIGH = C.name_bytes(C.name_value(identity_number=900, function=200, industry_group=5, arbitrary_address_capable=1))
     dm22 = j.Dm22(ca)
     dm11 = j.Dm11(ca)
@@ -87,6 +96,18 @@ def run_case(case):
         t_l = t_claim + 0.6
         sim.at(t_l, X.send, C.make_id(6, 0, C.PF_ADDRESS_CLAIM, 255, pref), HIGH, fd)
         events.append(t_l)
+    elif hist == 'lose_twice':
+        # loses the preferred address, re-claims the next one, and that one is defended by another lower NAME during the new veto wait
+        t_l = t_claim + rng.choice([0.1, 0.8])
+        sim.at(t_l, X.send, C.make_id(6, 0, C.PF_ADDRESS_CLAIM, 255, pref), LOW, fd)
+        t_2 = t_l + rng.choice([0.01, 0.05, 0.12])
+        sim.at(t_2, X.send, C.make_id(6, 0, C.PF_ADDRESS_CLAIM, 255, pref + 1), LOW2, fd)
+        events += [t_l, t_2]
+        lost[pref] = t_l
+        if case['aac']:
+            lost[pref + 1] = t_2
+    if hist in ('veto_lose', 'lose_after'):
+        lost[pref] = events[0]
     # probe instants
     probes = [0.1, t_start + delay / 2, t_claim + 0.0005, t_claim + 0.1, t_claim + 0.26, t_claim + 0.5]
     for e in events:
@@ -191,9 +212,12 @@ def run_case(case):
                 viol.add('nonoperational_call_emitted', '%s at t=%.4f (CA not operational) put on the bus: %s' % (name, t, extra[0].brief()), entry=name, **tag)
     # every frame of A: claim / null request / or SA == held address at emission
     last_claim = None
+    first_claim = {}
     for f in W.bus.frames:
         if f.src != 'A':
             continue
+        if is_claim(f) and (f.can_id & 0xFF) != 254:
+            first_claim.setdefault(f.can_id & 0xFF, f.t)
         st, ad = at_emit.get(f.idx, (None, None))
         sa = f.can_id & 0xFF if f.ext else f.can_id & 0xFF
         if is_claim(f):
@@ -209,6 +233,12 @@ def run_case(case):
             viol.add('frame_without_address', 'frame %s emitted while the CA was in state %r' % (f.brief(), st), **tag)
         elif sa != ad:
             viol.add('wrong_source_address', 'frame %s carries SA %02X but the CA holds %r' % (f.brief(), sa, ad), **tag)
+        elif hist != 'bypass' and sa == pref and 128 <= pref <= 247 and sa in first_claim and f.t < first_claim[sa] + 0.249:
+            # the initial claim of an address in 128..247 completes only after the 250 ms veto time (J1939-81)
+            viol.add('sent_before_claim_completed', 'frame %s sent %.1f ms after the initial claim for address %d (veto time 250 ms)'
+                     % (f.brief(), (f.t - first_claim[sa]) * 1000, sa), **tag)
+        elif sa in lost and f.t > lost[sa] + 0.005:
+            viol.add('sent_from_lost_address', 'frame %s carries SA %02X although a lower NAME claimed that address at %.4f' % (f.brief(), sa, lost[sa]), **tag)
         elif last_claim is not None and sa != last_claim and hist != 'bypass':
             viol.add('wrong_source_address', 'frame %s carries SA %02X but the CA\'s last claim on the bus was for %02X' % (f.brief(), sa, last_claim), **tag)
     if st_dm1[0]:
